@@ -13,6 +13,8 @@ def correspond(ctx):
                          "division_connected_variable_groups(_with_borders) and the returned ids vs the Lean model")
     graphcorr.run_cases(ctx, graphcorr.case_vgroups, ctx.n(300, 4000), "vgroups", with_ids=True)
     graphcorr.run_cases(ctx, graphcorr.case_vgborders, ctx.n(300, 4000), "vgborders")
+    graphcorr.run_cases(ctx, graphcorr.case_vgborders_frame, ctx.n(80, 800), "vgborders_frame")
+    graphcorr.run_cases(ctx, graphcorr.case_vgroups_shape, ctx.n(80, 800), "vgroups_shape", with_ids=True)
     if not ctx.quick():
         for f in search(ctx, None, budget=24):
             ctx.disagree("semantic", what=f.what, data=f.data)
